@@ -33,7 +33,7 @@ def gen_job(verif_seed, tier, index):
     if g.random() < 0.35:
         jobgen.add_resname_clash(job, g)
     if g.random() < 0.35:
-        jobgen.add_user_templates(job, g)
+        jobgen.add_user_templates(job, g, allow_vs=True)
     if g.random() < 0.15 and not job.get("resname_clash"):
         job["opts"]["skip_filter"] = True
     if g.random() < 0.5:
